@@ -343,6 +343,10 @@ def property_anchor_files(prop: str) -> List[str]:
                      'panqec/analysis.py'],
              'C20': ['panqec/decoders/base/_base_decoder.py'] + sorted(
                  str(f.relative_to(REPO)) for f in (REPO / 'panqec' / 'codes').glob('*/_*_code.py'))}
+    # the lattice definitions of every class are what C01 / C02 / C17 speak about
+    for pid in ('C01', 'C02', 'C17'):
+        extra[pid] = extra.get(pid, []) + sorted(
+            str(f.relative_to(REPO)) for f in (REPO / 'panqec' / 'codes').glob('*/_*_code.py'))
     return sorted(set(files + extra.get(prop, [])))
 
 
